@@ -2,6 +2,8 @@
 import copy
 import math
 
+from hypothesis import strategies as st
+
 from pbt import gen
 from pbt.engine import Outcome, Violation
 from pbt.harness import Session, algo_label, leaves
@@ -14,7 +16,8 @@ RULE = (
     "equals the maximum over all evaluated search points; StoSOO - a deepest-layer cell whose ledger mean (0 if unevaluated) is "
     "maximal in that layer; StroquOOL - among candidates re-evaluated in validation, one of highest validation mean; POO - exactly one "
     "learner is asked, it has a maximal ledger score, its proposal is returned; GPO/PCT/VPCT - the validated point of a phase whose "
-    "ledger validation mean is maximal. non-trivial = all rewards <= 0, or >= 2 candidates tied at the maximum, or an unevaluated cell "
+    "ledger validation mean is maximal. In a third of the cases get_last_point() is also queried at Hypothesis-chosen rounds in between "
+    "and judged against the ledger of that moment (every prefix of a run is a run). non-trivial = all rewards <= 0, or >= 2 candidates tied at the maximum, or an unevaluated cell "
     "present at the end; distinct = SHA-1 of the case."
 )
 ASSUMPTIONS = [
@@ -55,7 +58,94 @@ def check_case(case):
                 Lh = a["params"]["rounds"] // (2 * N)
                 gpo = {"N": N, "L": Lh, "phases": []}  # each: dict(point=, rewards=[])
             learner_rewards = {}
+            def judge(T):
+                ncalls = len(s.learner_calls)
+                try:
+                    lp = s.last_point()
+                except Exception as e:  # noqa: BLE001 - D11 or a crash: C01's business
+                    return ("aborted", Outcome(aborted="last-point-exception:" + type(e).__name__, classes=classes, rounds=T))
+                rc = s.cell_of(lp)
+                nt_allneg = all(float(x) <= 0 for x in all_rewards)
+                tied = False
+                uneval = False
+                if name in ("DOO", "SOO", "SequOOL"):
+                    if not evals:
+                        return ("aborted", Outcome(aborted="no-search-point", classes=classes, rounds=T))
+                    rew = {k: (v[0] if name == "SequOOL" else v[-1]) for k, v in evals.items()}
+                    best = max(rew.values())
+                    if rc is None:
+                        cand = [cells[k] for k in rew if list(cells[k].get_cpoint()) == list(lp)]
+                        rc = cand[0] if cand else None
+                    if rc is None or id(rc) not in rew:
+                        raise Violation("recommend-unevaluated", "%s recommends %r, which was never evaluated as a search point "
+                                        "(best evaluated reward %r)" % (name, lp, best), T)
+                    if not rew[id(rc)] == best:
+                        raise Violation("recommend-not-best", "%s recommends a cell with reward %r, best evaluated reward is %r" % (name, rew[id(rc)], best), T)
+                    tied = sum(1 for v in rew.values() if v == best) >= 2
+                    part = s.main_partition()
+                    uneval = any(id(l) not in rew for l in leaves(part.get_root()))
+                elif name == "StoSOO":
+                    part = s.main_partition()
+                    layer = part.get_node_list()[part.get_depth()]
+                    means = {id(n): (fmean(evals[id(n)]) if id(n) in evals else 0.0) for n in layer}
+                    best = max(means.values())
+                    if rc is None or id(rc) not in means:
+                        raise Violation("recommend-layer", "StoSOO recommends a point that is not a deepest-level cell", T)
+                    scale = max([abs(float(x)) for x in all_rewards] + [1.0])
+                    if not close(means[id(rc)], best, scale):
+                        raise Violation("recommend-not-best", "StoSOO recommends a cell of mean %r, deepest-level best is %r" % (means[id(rc)], best), T)
+                    tied = sum(1 for v in means.values() if v == best) >= 2
+                    uneval = any(id(n) not in evals for n in layer)
+                elif name == "StroquOOL":
+                    if not val:
+                        return ("aborted", Outcome(aborted="no-validation-yet", classes=classes, rounds=T))
+                    vm = {k: fmean(v) for k, v in val.items()}
+                    best = max(vm.values())
+                    if rc is None or id(rc) not in vm:
+                        raise Violation("recommend-unevaluated", "StroquOOL recommends a cell that was not re-evaluated in validation", T)
+                    scale = max([abs(float(x)) for x in all_rewards] + [1.0])
+                    if not close(vm[id(rc)], best, scale):
+                        raise Violation("recommend-not-best", "StroquOOL recommends validation mean %r, best is %r" % (vm[id(rc)], best), T)
+                    tied = sum(1 for v in vm.values() if v == best) >= 2
+                elif name == "POO":
+                    calls = s.learner_calls[ncalls:]
+                    asked = [c for c in calls if c[0] == "pull"]
+                    if len(asked) != 1 or [c for c in calls if c[0] != "pull"]:
+                        raise Violation("recommend-routing", "get_last_point made learner calls %r" % (calls,), T)
+                    j = asked[0][1]
+                    if s.learners[j].pulls[-1][2] is not lp:
+                        raise Violation("recommend-routing", "the returned point is not the asked learner's proposal", T)
+                    scores = {k: fmean(v) for k, v in learner_rewards.items()}
+                    for lg in s.learners:
+                        scores.setdefault(lg.index, 0.0)
+                    best = max(scores.values())
+                    scale = max([abs(float(x)) for x in all_rewards] + [1.0])
+                    if not close(scores[j], best, scale):
+                        raise Violation("recommend-not-best", "POO asked learner %d of score %r, best score is %r" % (j, scores[j], best), T)
+                    tied = sum(1 for v in scores.values() if v == best) >= 2
+                else:
+                    ph = [p for p in gpo["phases"] if p["rewards"]]
+                    if not ph:
+                        return ("aborted", Outcome(aborted="no-validation-yet", classes=classes, rounds=T))
+                    sc = [fmean(p["rewards"]) for p in ph]
+                    best = max(sc)
+                    hit = [k for k, p in enumerate(ph) if p["point"] is lp or list(p["point"]) == list(lp)]
+                    if not hit:
+                        raise Violation("recommend-unevaluated", "%s recommends %r, which is not a validated point" % (name, lp), T)
+                    scale = max([abs(float(x)) for x in all_rewards] + [1.0])
+                    if not any(close(sc[k], best, scale) for k in hit):
+                        raise Violation("recommend-not-best", "%s recommends the validated point of score %r, best score is %r" % (
+                            name, [sc[k] for k in hit], best), T)
+                    tied = sum(1 for v in sc if v == best) >= 2
+                return ("ok", nt_allneg, tied, uneval)
+
+            queries = set(case.get("queries", []))
+            any_allneg = any_tied = any_uneval = False
             for t in range(1, T + 1):
+                if t in queries and t > 1:
+                    res = judge(t - 1)
+                    if res[0] == "ok":
+                        any_allneg, any_tied, any_uneval = any_allneg or res[1], any_tied or res[2], any_uneval or res[3]
                 ncalls = len(s.learner_calls)
                 try:
                     pt = s.pull()
@@ -95,85 +185,13 @@ def check_case(case):
                     evals.setdefault(id(cell), []).append(r)
                     cells[id(cell)] = cell
                     order.append(cell)
-            # ------------------------------------------------------------ the query
-            ncalls = len(s.learner_calls)
-            try:
-                lp = s.last_point()
-            except Exception as e:  # noqa: BLE001 - D11 or a crash: C01's business
-                return Outcome(aborted="last-point-exception:" + type(e).__name__, classes=classes, rounds=T)
-            rc = s.cell_of(lp)
-            nt_allneg = all(float(x) <= 0 for x in all_rewards)
-            tied = False
-            uneval = False
-            if name in ("DOO", "SOO", "SequOOL"):
-                if not evals:
-                    return Outcome(aborted="no-search-point", classes=classes, rounds=T)
-                rew = {k: (v[0] if name == "SequOOL" else v[-1]) for k, v in evals.items()}
-                best = max(rew.values())
-                if rc is None:
-                    cand = [cells[k] for k in rew if list(cells[k].get_cpoint()) == list(lp)]
-                    rc = cand[0] if cand else None
-                if rc is None or id(rc) not in rew:
-                    raise Violation("recommend-unevaluated", "%s recommends %r, which was never evaluated as a search point "
-                                    "(best evaluated reward %r)" % (name, lp, best), T)
-                if not rew[id(rc)] == best:
-                    raise Violation("recommend-not-best", "%s recommends a cell with reward %r, best evaluated reward is %r" % (name, rew[id(rc)], best), T)
-                tied = sum(1 for v in rew.values() if v == best) >= 2
-                part = s.main_partition()
-                uneval = any(id(l) not in rew for l in leaves(part.get_root()))
-            elif name == "StoSOO":
-                part = s.main_partition()
-                layer = part.get_node_list()[part.get_depth()]
-                means = {id(n): (fmean(evals[id(n)]) if id(n) in evals else 0.0) for n in layer}
-                best = max(means.values())
-                if rc is None or id(rc) not in means:
-                    raise Violation("recommend-layer", "StoSOO recommends a point that is not a deepest-level cell", T)
-                scale = max([abs(float(x)) for x in all_rewards] + [1.0])
-                if not close(means[id(rc)], best, scale):
-                    raise Violation("recommend-not-best", "StoSOO recommends a cell of mean %r, deepest-level best is %r" % (means[id(rc)], best), T)
-                tied = sum(1 for v in means.values() if v == best) >= 2
-                uneval = any(id(n) not in evals for n in layer)
-            elif name == "StroquOOL":
-                if not val:
-                    return Outcome(aborted="no-validation-yet", classes=classes, rounds=T)
-                vm = {k: fmean(v) for k, v in val.items()}
-                best = max(vm.values())
-                if rc is None or id(rc) not in vm:
-                    raise Violation("recommend-unevaluated", "StroquOOL recommends a cell that was not re-evaluated in validation", T)
-                scale = max([abs(float(x)) for x in all_rewards] + [1.0])
-                if not close(vm[id(rc)], best, scale):
-                    raise Violation("recommend-not-best", "StroquOOL recommends validation mean %r, best is %r" % (vm[id(rc)], best), T)
-                tied = sum(1 for v in vm.values() if v == best) >= 2
-            elif name == "POO":
-                calls = s.learner_calls[ncalls:]
-                asked = [c for c in calls if c[0] == "pull"]
-                if len(asked) != 1 or [c for c in calls if c[0] != "pull"]:
-                    raise Violation("recommend-routing", "get_last_point made learner calls %r" % (calls,), T)
-                j = asked[0][1]
-                if s.learners[j].pulls[-1][2] is not lp:
-                    raise Violation("recommend-routing", "the returned point is not the asked learner's proposal", T)
-                scores = {k: fmean(v) for k, v in learner_rewards.items()}
-                for lg in s.learners:
-                    scores.setdefault(lg.index, 0.0)
-                best = max(scores.values())
-                scale = max([abs(float(x)) for x in all_rewards] + [1.0])
-                if not close(scores[j], best, scale):
-                    raise Violation("recommend-not-best", "POO asked learner %d of score %r, best score is %r" % (j, scores[j], best), T)
-                tied = sum(1 for v in scores.values() if v == best) >= 2
-            else:
-                ph = [p for p in gpo["phases"] if p["rewards"]]
-                if not ph:
-                    return Outcome(aborted="no-validation-yet", classes=classes, rounds=T)
-                sc = [fmean(p["rewards"]) for p in ph]
-                best = max(sc)
-                hit = [k for k, p in enumerate(ph) if p["point"] is lp or list(p["point"]) == list(lp)]
-                if not hit:
-                    raise Violation("recommend-unevaluated", "%s recommends %r, which is not a validated point" % (name, lp), T)
-                scale = max([abs(float(x)) for x in all_rewards] + [1.0])
-                if not any(close(sc[k], best, scale) for k in hit):
-                    raise Violation("recommend-not-best", "%s recommends the validated point of score %r, best score is %r" % (
-                        name, [sc[k] for k in hit], best), T)
-                tied = sum(1 for v in sc if v == best) >= 2
+            res = judge(T)
+            if res[0] == "aborted":
+                return res[1]
+            _, nt_allneg, tied, uneval = res
+            nt_allneg = nt_allneg or any_allneg
+            tied = tied or any_tied
+            uneval = uneval or any_uneval
             if nt_allneg:
                 classes.append("all-rewards<=0")
             if tied:
@@ -210,9 +228,17 @@ LAWS = ["negative", "negative", "nonpos_ties", "nonpos_ties", "const", "ties", "
 NAMES = ["DOO", "DOO", "SOO", "SequOOL", "StoSOO", "StroquOOL", "POO", "GPO", "PCT", "VPCT"]
 
 
+@st.composite
+def cases(draw, tier):
+    quick = tier == "quick"
+    c = draw(gen.run_case(names=NAMES, laws=LAWS, poo_ok_only=True, gpo_ok_only=True,
+                          n_range=(100, 300) if quick else (100, 1500), script_prob=0.25,
+                          full_T_prob=0.5, T_min=3))
+    if draw(st.integers(0, 2)) == 0:
+        # "after a run": every prefix of the rounds is a run - query in between as well
+        c["queries"] = sorted(set(draw(st.lists(st.integers(2, max(2, c["T"])), min_size=1, max_size=10))))
+    return c
+
+
 def run_shard(ctx):
-    quick = ctx.tier == "quick"
-    ctx.drive("recommend", gen.run_case(names=NAMES, laws=LAWS, poo_ok_only=True, gpo_ok_only=True,
-                                        n_range=(100, 300) if quick else (100, 1500), script_prob=0.25,
-                                        full_T_prob=0.5, T_min=3),
-              check_case, ctx.budget(12000, 80000))
+    ctx.drive("recommend", cases(ctx.tier), check_case, ctx.budget(12000, 80000))
